@@ -12,7 +12,9 @@ Open Scope float_scope.
 
 RULE = ("rotation cases: axis direction uniform / coordinate axes / small-integer directions, |axis| log-uniform in [1e-6,1e6] "
         "and (one third) boundary lengths (exactly and almost 1 at 1e-3..1e-14, powers of 2 and 10, range ends), theta in [-20,20] and special angles; "
-        "frame cases: generic triples at scale 1e-3..1e3, exactly collinear triples (axes, diagonals, random integer "
+        "rotation call histories on ONE float64 axis array object changed in place between calls; "
+        "frame cases: generic triples at scale 1e-3..1e3, nearly collinear triples (sin of the angle 2e-5..1e-1, separations "
+        "1e-2..1 of the scale) at every scale, exactly collinear triples (axes, diagonals, random integer "
         "directions; dyadic and decimal scales), coincident middle point, coincident end points (error branch). "
         "A case is non-trivial when distinct; frame cases additionally record the branch taken.")
 
@@ -47,12 +49,27 @@ def gen_rot(rs):
 
 def gen_triple(rs):
     """returns (kind, p0, p1, p2)"""
-    kind = rs.choice(["generic", "generic", "collinear_axis", "collinear_diag", "collinear_int",
-                      "collinear_int_decimal", "coincident_mid", "coincident_ends"])
+    kind = rs.choice(["generic", "generic", "near_collinear", "near_collinear", "collinear_axis", "collinear_diag",
+                      "collinear_int", "collinear_int_decimal", "coincident_mid", "coincident_ends"])
     scale = 10 ** rs.uniform(-3, 3)
     if kind == "generic":
         pts = rs.uniform(-1, 1, size=(3, 3)) * scale
         return kind, pts[0], pts[1], pts[2]
+    if kind == "near_collinear":
+        # almost but not collinear: sin(angle at p0) log-uniform in [2e-5, 1e-1] - well above the 1e-6 threshold of
+        # the code (K's indeterminate band is [6e-8, 1.5e-5]) and well-conditioned (rounding ~1e-16/sin) - at every
+        # scale and separation, so that a threshold that depends on |p2-p0| shows up
+        p0 = rs.uniform(-1, 1, size=3) * scale
+        d = rs.normal(size=3)
+        d /= np.linalg.norm(d)
+        n = np.cross(d, rs.normal(size=3))
+        n /= np.linalg.norm(n)
+        sinphi = 10 ** rs.uniform(np.log10(2e-5), -1)
+        sep2 = scale * 10 ** rs.uniform(-2, 0)
+        sep1 = scale * 10 ** rs.uniform(-2, 0) * rs.choice([-1.0, 1.0])
+        p2 = p0 + sep2 * d
+        p1 = p0 + sep1 * (np.sqrt(1 - sinphi ** 2) * d + sinphi * n)
+        return kind, p0, p1, p2
     if kind == "coincident_ends":
         pts = rs.uniform(-1, 1, size=(2, 3)) * scale
         return kind, pts[0], pts[1], pts[0].copy()
@@ -122,6 +139,57 @@ def oracle_rot(axis, theta):
     return bad
 
 
+def rot_history(rs, n_calls):
+    """steps of a call history on ONE float64 axis array object: each step sets the array in place
+    (`axis[:] = new`) and calls rotation_matrix(axis, theta)"""
+    steps = []
+    for _ in range(n_calls):
+        a, th = gen_rot(rs)
+        mode = rs.choice(["set", "negate", "scale", "same"])
+        steps.append({"mode": str(mode), "axis": [float(x) for x in a], "theta": float(th), "factor": float(10 ** rs.uniform(-2, 2))})
+    return steps
+
+
+def run_rot_history(steps):
+    """returns list of (axis values passed, theta, matrix, axis unchanged by the call)"""
+    from gaddlemaps import rotation_matrix
+    axis = np.array(steps[0]["axis"], dtype=np.float64)
+    out = []
+    for k, st in enumerate(steps):
+        if k > 0:
+            if st["mode"] == "set":
+                axis[:] = st["axis"]
+            elif st["mode"] == "negate":
+                axis *= -1.0
+            elif st["mode"] == "scale":
+                axis *= st["factor"]
+        before = axis.copy()
+        with np.errstate(all="ignore"):
+            R = rotation_matrix(axis, st["theta"])
+        out.append((before, st["theta"], np.array(R), bool((axis == before).all())))
+    return out
+
+
+def oracle_rot_history(steps):
+    bad = []
+    for k, (a, th, R, unchanged) in enumerate(run_rot_history(steps)):
+        if not unchanged:
+            bad.append("call %d: the caller's axis array was modified" % k)
+        n = a / np.linalg.norm(a)
+        if not np.isfinite(R).all():
+            bad.append("call %d: non-finite matrix" % k)
+            continue
+        if np.abs(R @ R.T - np.eye(3)).max() > TOL or abs(np.linalg.det(R) - 1) > TOL:
+            bad.append("call %d: not a proper rotation" % k)
+        if np.abs(R @ n - n).max() > TOL:
+            bad.append("call %d: the axis passed to THIS call is not fixed (|R n - n| = %.3g)" % (k, np.abs(R @ n - n).max()))
+        if abs(np.trace(R) - (1 + 2 * math.cos(th))) > TOL:
+            bad.append("call %d: trace != 1+2cos" % k)
+        if np.abs(R - impl_rot(a.copy(), th)).max() > TOL:
+            bad.append("call %d: differs from a call with a fresh copy of the same axis" % k)
+    return bad
+
+
 def oracle_base(kind, p0, p1, p2):
     if kind == "coincident_ends":
         return []   # outside the property's domain (first and third point must be distinct)
@@ -141,6 +209,13 @@ def oracle_base(kind, p0, p1, p2):
     nd1 = np.linalg.norm(d1)
     if nd1 > 0 and abs(np.dot(v3_, d1)) > TOL * max(nd1, np.linalg.norm(d2)) * (1e3 if kind == "collinear_int_decimal" else 1):
         bad.append("third vector not normal to the plane (%.3g)" % (abs(np.dot(v3_, d1)) / nd1))
+    if kind in ("generic", "near_collinear") and nd1 > 0:
+        # for a non-collinear triple the normal is determined up to sign: compare with an independent computation
+        nrm = np.cross(d2 / np.linalg.norm(d2), d1 / nd1)
+        sn = np.linalg.norm(nrm)
+        if sn > 1.9e-5 and np.linalg.norm(np.cross(v3_, nrm / sn)) > 1e-7:
+            bad.append("third vector is not the normal of the plane of the points (sin of the angle between them %.3g, "
+                       "sin of the angle at p0 %.3g, |p2-p0| %.3g)" % (np.linalg.norm(np.cross(v3_, nrm / sn)), sn, np.linalg.norm(d2)))
     if abs(np.dot(v3_, d2)) > TOL * np.linalg.norm(d2):
         bad.append("third vector not normal to p2-p0")
     if not (np.array(o) == np.array(p0)).all():
@@ -185,6 +260,18 @@ def correspondence(ctx):
         meta.append({"kind": "rotation_matrix", "axis": list(map(float, axis)), "theta": theta})
         hist["rotation"] = hist.get("rotation", 0) + 1
         ctx.count(("rot", tuple(axis), theta))
+    # call histories on one axis array object (in-place direction changes between calls)
+    for _ in range(ctx.n(60, 600)):
+        steps = rot_history(rs, int(rs.randint(2, 5)))
+        bad = oracle_rot_history(steps)
+        if bad:
+            ctx.violation("rotation_matrix history: " + "; ".join(bad[:4]), {"kind": "rotation_history", "steps": steps}, key="rotation")
+        for a, th, R, _u in run_rot_history(steps):
+            obs = "(Some %s)" % m3(R) if np.isfinite(R).all() else "None"
+            cases.append("chk_rot %s %s %s %s" % (v3(a), fl(np.cos(th)), fl(np.sin(th)), obs))
+            meta.append({"kind": "rotation_matrix", "axis": list(map(float, a)), "theta": th, "in_history": steps})
+            hist["rotation_in_history"] = hist.get("rotation_in_history", 0) + 1
+            ctx.count(("roth", tuple(a), th))
     # zero axis: error branch
     R = impl_rot((0.0, 0.0, 0.0), 1.0)
     cases.append("chk_rot %s %s %s %s" % (v3((0, 0, 0)), fl(np.cos(1.0)), fl(np.sin(1.0)),
@@ -206,7 +293,7 @@ def correspondence(ctx):
         if bad:
             ctx.violation("local frame: " + "; ".join(bad), meta[-1], key="frame")
     ctx.sample(meta[0])
-    ctx.sample(meta[n_rot + 2])
+    ctx.sample({k: v for k, v in meta[n_rot + 2].items() if k != "in_history"})
     ctx.sample(meta[-1])
     codes, log = lib.run_coq_cases(ctx.cid, "K", HEADER, cases)
     K = ctx.cov["K"]
@@ -224,6 +311,8 @@ def correspondence(ctx):
     for d in dis[:50]:
         if d["kind"] == "calcule_base":
             bad = oracle_base(d["gen"], *d["points"])
+        elif d.get("in_history"):
+            bad = oracle_rot_history(d["in_history"])
         else:
             bad = oracle_rot(d["axis"], d["theta"])
         if bad:
@@ -244,6 +333,12 @@ def oracle(ctx, scale):
             fails += 1
             ctx.violation("rotation_matrix: " + "; ".join(bad), {"kind": "rotation_matrix", "axis": list(axis), "theta": theta},
                           key="rotation")
+    for _ in range(n // 3):
+        steps = rot_history(rs, int(rs.randint(2, 6)))
+        bad = oracle_rot_history(steps)
+        if bad:
+            fails += 1
+            ctx.violation("rotation_matrix history: " + "; ".join(bad[:4]), {"kind": "rotation_history", "steps": steps}, key="rotation")
     if scale > 1:
         for _ in range(n):
             kind, p0, p1, p2 = gen_triple(rs)
@@ -260,8 +355,10 @@ def replay(ctx, obj):
     r = obj["replay"]
     if r.get("kind") == "calcule_base":
         bad = oracle_base(r.get("gen", "generic"), *r["points"])
+    elif r.get("kind") == "rotation_history":
+        bad = oracle_rot_history(r["steps"])
     elif r.get("kind") == "rotation_matrix":
-        bad = oracle_rot(r["axis"], r["theta"])
+        bad = oracle_rot_history(r["in_history"]) if r.get("in_history") else oracle_rot(r["axis"], r["theta"])
     else:
         print("replay names a proof/correspondence, not an input:", r)
         return False
